@@ -448,6 +448,17 @@ func (s simState) get(seam, ifn string, read func(*wiface) bool) (bool, error) {
 	f, _ := w.decide(seam, s.n.id, ifn, "")
 	e.F = faultTag(f)
 	ref := w.log.Add(e)
+	// Mode "sampled": the kernel has produced the value, the call is slow to
+	// return it (the state may change meanwhile; the caller gets what was read).
+	var sampled *bool
+	if f != nil && f.Mode == "sampled" {
+		if ifc, ok := s.n.ifaces[ifn]; ok {
+			w.mu.Lock()
+			v := read(ifc)
+			w.mu.Unlock()
+			sampled = &v
+		}
+	}
 	w.park(f)
 	x := verifsim.Event{K: seam + ".exit", Node: s.n.id, If: ifn, Ref: ref}
 	if f != nil && f.Err != "" {
@@ -465,6 +476,9 @@ func (s simState) get(seam, ifn string, read func(*wiface) bool) (bool, error) {
 	w.mu.Lock()
 	v := read(ifc)
 	w.mu.Unlock()
+	if sampled != nil {
+		v = *sampled
+	}
 	if v {
 		x.V = 1
 	}
